@@ -4,7 +4,7 @@ META = {
     'level': 'fault_enumeration',
     'rule': ('DAGs of <= 7 tasks x failing subsets (sim: every subset of small DAGs in the thorough tier, sampled '
              'otherwise; serial/fork/spawn: sampled, gate-controlled completion orders) x fault kinds {ValueError, '
-             'exception whose pickle round trip fails, SystemExit, BaseException subclass, os._exit, SIGKILL of self} '
+             'exception whose pickle round trip fails, SystemExit, BaseException subclass, os._exit(3), os._exit(0), SIGKILL of self} '
              'x continue_on_failure in {True, False}; failing tasks may be requested or dependency-only. Oracle = '
              'failure-closure (taint) model: with continue_on_failure=True run_tasks returns, untainted tasks are '
              'executed once, cached and returned with reference values, tainted ones are absent from the result and '
@@ -22,15 +22,15 @@ META = {
 }
 
 KINDS = {
-    'sim': ('raise:ValueError', 'raise:Multi', 'raise:SystemExit', 'raise:Base', 'kill', 'exit'),
+    'sim': ('raise:ValueError', 'raise:Multi', 'raise:SystemExit', 'raise:Base', 'kill', 'exit', 'exit0'),
     'serial': ('raise:ValueError', 'raise:Multi', 'raise:SystemExit', 'raise:Base'),
-    'fork': ('raise:ValueError', 'raise:Multi', 'raise:SystemExit', 'raise:Base', 'kill', 'exit'),
-    'spawn': ('raise:ValueError', 'raise:Multi', 'raise:SystemExit', 'raise:Base', 'kill', 'exit'),
+    'fork': ('raise:ValueError', 'raise:Multi', 'raise:SystemExit', 'raise:Base', 'kill', 'exit', 'exit0'),
+    'spawn': ('raise:ValueError', 'raise:Multi', 'raise:SystemExit', 'raise:Base', 'kill', 'exit', 'exit0'),
 }
 CAUSES = {
     'raise:ValueError': {'ValueError'}, 'raise:Multi': {'MultiArgError', 'TaskDiedError'},
     'raise:SystemExit': {'SystemExit'}, 'raise:Base': {'PlannedBase'},
-    'kill': {'TaskDiedError'}, 'exit': {'TaskDiedError'},
+    'kill': {'TaskDiedError'}, 'exit': {'TaskDiedError'}, 'exit0': {'TaskDiedError'},
 }
 
 
@@ -45,6 +45,7 @@ def make_scn(rng, real, failing=None):
     fl = rng.sample(names, min(k, len(names)))
     scn['failing'] = {n: rng.choice(KINDS[backend]) for n in fl}
     scn['cof'] = rng.random() < 0.7
+    scn['watchdog_s'] = 40      # tasks take milliseconds; a run that has not returned by then, with no worker alive, hangs
     if not scn['cof']:
         scn['grace'] = 0.6 if backend in ('fork', 'spawn') else 0.0
     if backend in ('fork', 'spawn'):
@@ -92,7 +93,7 @@ def judge(rep, scn, out):
                 if n not in tainted and tuple(v) != tuple(exp[n]):
                     bad.append(('wrong-value', f'value of untainted {n} is {v}, reference {exp[n]}'))
             rep.count('untainted_values_checked', len(out.result_list))
-            simdeaths = {n for n, a in failing.items() if a in ('kill', 'exit')} if scn['backend'] == 'sim' else set()
+            simdeaths = {n for n, a in failing.items() if a in ('kill', 'exit', 'exit0')} if scn['backend'] == 'sim' else set()
             for n in E:
                 if n in tainted:
                     if n in out.cached_after:
@@ -169,6 +170,8 @@ def run_shard(rep):
     rep.require('failing_tasks', 500)
     rep.require('post_raise_windows_observed', 50)
     rep.require('untainted_values_checked', 500)
+    if sum(1 for v in rep.violations if v['key'] == 'never-terminates') >= 2:
+        return
     drive(rep, 'C10', make_scn=make_scn, judge=judge, n_sim=cfg['n_sim'], n_real=cfg['n_real'], handles_spin=True)
 
 
